@@ -120,6 +120,9 @@ class Evaluator:
             return ("this",)
         if k == "un" and e["op"] == "!":
             return not self.truth(self.ev(e["e"], env))
+        if k == "un" and e["op"] == "&" and isinstance(e.get("e"), dict) and e["e"].get("k") == "ref" and \
+                e["e"].get("dk") == "other" and "::" in (e["e"].get("q") or ""):
+            return ("memptr", e["e"]["name"])       # &operand_t::bound
         if k == "bin":
             op = e["op"]
             if op == "&&":
@@ -142,6 +145,12 @@ class Evaluator:
             if op == ",":
                 self.ev(e["lhs"], env)
                 return self.ev(e["rhs"], env)
+            if op in (".*", "->*"):
+                obj, mp = self.ev(e["lhs"], env), self.ev(e["rhs"], env)
+                if isinstance(obj, tuple) and obj and obj[0] == "record" and isinstance(mp, tuple) and mp and \
+                        mp[0] == "memptr" and mp[1] in obj[1]:
+                    return obj[1][mp[1]]
+                raise Cannot("member pointer access %s" % short(e)[:60])
             if op in ("+", "-"):        # index arithmetic: `expr[expr.get_size() - 1]`
                 a, b = self.ev(e["lhs"], env), self.ev(e["rhs"], env)
                 if isinstance(a, int) and isinstance(b, int) and not isinstance(a, bool) and not isinstance(b, bool):
@@ -159,6 +168,9 @@ class Evaluator:
             b = e.get("base")
             if b is None or b.get("k") == "this":
                 return ("field", e.get("name"))
+            bv = self.ev(b, env)
+            if isinstance(bv, tuple) and bv and bv[0] == "record" and e.get("name") in bv[1]:
+                return bv[1][e["name"]]      # a field of a local aggregate (`struct operand_t { const bool clock, .. }`)
             raise Cannot("member %s" % short(e))
         if k == "assert":
             return None
@@ -233,6 +245,19 @@ class Evaluator:
             return self.ev(e["args"][0], env)
         if e.get("copy") and len(e.get("args", [])) == 1:
             return self.ev(e["args"][0], env)
+        cls = e.get("cls") or t.replace("const ", "").strip()
+        ctors = [f for k_, f in self.F.functions.items() if f.get("cls") == cls and f.get("name") == cls.split("::")[-1]
+                 and f.get("inits") and len(f.get("params", [])) == len(e.get("args", []))]
+        if len(ctors) == 1 and not [x for x in walk(ctors[0].get("body")) if x.get("k") not in ("block",)]:
+            env2 = {p["name"]: self.ev(a, env) for p, a in zip(ctors[0]["params"], e.get("args", []))}
+            rec = {}
+            for ini in ctors[0]["inits"]:
+                if ini.get("member") and ini.get("e") is not None:
+                    v = self.ev(ini["e"], env2)
+                    if isinstance(v, tuple) and v and v[0] == "tuple" and len(v[1]) == 1:
+                        v = v[1][0]
+                    rec[ini["member"]] = v
+            return ("record", rec)
         raise Cannot("construction of %s" % t)
 
     # ------------------------------------------------------------------ calls
